@@ -1,6 +1,7 @@
 import Req.Driver.Proto
 import Req.Client.Scope
 import Req.Client.Heap
+import Req.Client.ShareJudge
 /-! Driver lanes of C19.
 
 `c19prog <program>` — run an API program on the value model (`Scope.runScope`) and print the
@@ -142,9 +143,38 @@ def laneHeap : List String → String
     | none => "bad-op"
   | _ => "bad-op"
 
+def parseKind : String → Option Req.CloneFacts.Kind
+  | "value" => some .value | "map" => some .map | "slice" => some .slice | "pointer" => some .pointer
+  | "func" => some .func | "iface" => some .iface | "struct" => some .struct
+  | _ => none
+
+def parseHow : String → Option Req.CloneFacts.How
+  | "assigned" => some .assigned | "cloned" => some .cloned | "rebuilt" => some .rebuilt | "absent" => some .absent
+  | _ => none
+
+/-- `c19rel <owner> <field> <kind> <rowkind|-> <how|-> <hasSetter 0|1> <rel> <ctx>`: the judge of lane `share`
+(`ShareJudge.judge`). `ctx` is a string of flags: `f` a TLS fingerprint is set, `j` the client has a
+jar factory, `e` the original's slice / map is empty (`_` = none). -/
+def laneRel : List String → String
+  | [owner, field, kind, rowkind, how, hs, rel, ctx] =>
+    match parseKind kind, Req.ShareJudge.Rel.parse rel with
+    | some k, some r =>
+      let c : Req.ShareJudge.Ctx := ⟨ctx.contains 'f', ctx.contains 'j', ctx.contains 'e'⟩
+      let row : Option (Option (Req.CloneFacts.Kind × Req.CloneFacts.How × Bool)) :=
+        if rowkind == "-" then some none
+        else match parseKind rowkind, parseHow how with
+          | some rk, some h => some (some (rk, h, hs == "1"))
+          | _, _ => none
+      match row with
+      | some rw => (Req.ShareJudge.judge owner field k rw c r).show
+      | none => "bad-op"
+    | _, _ => "bad-op"
+  | _ => "bad-op"
+
 def lanes : List (String × (List String → String)) := [
   ("c19prog", laneProg),
-  ("c19heap", laneHeap)
+  ("c19heap", laneHeap),
+  ("c19rel", laneRel)
 ]
 
 end Req.Driver.L.C19
